@@ -281,31 +281,17 @@ theorem builtin_kernels (size : α) (hsize : 0 < size) :
 
 /-! ## `filter_seq` and `Track.smooth` -/
 
-/-- **`filter_seq`** For a weight list (not of length one), a Kernel object or the Dirac kernel, on a
-track with at least one observation, and distinct dimensions none of which is the scratch feature
-`temp` or one of the virtual features `t`, `timestamp`, `idx`, every one of which is a signal of the
-track in the domain: `filter_seq` succeeds; each listed coordinate / feature is replaced by the
-signal of renormalised weighted means of its own former values (the same window for all of them —
-the in-place normalisation of the list at the first dimension does not change the result for the
-following ones); every other signal except `temp` is untouched. -/
-theorem filterSeq_is_mean (t : Sigs α) (kern : KArg α) (w : List α) (b : Bool) (dims : List String)
-    (hp : Prepared kern w b) (hone : ∀ a, kern ≠ .list [a])
+/-- **The loop `for af in dim`** of `filter_seq` (also what the list form of `Track.operate` runs on feature
+names, see `operate_list_is_mean`), for a weight list of any length, a Kernel object or the Dirac kernel: every
+listed coordinate / feature is replaced by its mean signal, the kernel being the same Python object at every turn. -/
+theorem seqLoop_is_mean (t : Sigs α) (kern : KArg α) (w : List α) (b : Bool) (dims : List String)
+    (hp : Prepared kern w b)
     (hnd : dims.Nodup) (htemp : "temp" ∉ dims)
     (hres : ∀ d ∈ dims, d ≠ "t" ∧ d ≠ "timestamp" ∧ d ≠ "idx") (hsize : trackSize t ≠ 0)
     (hall : ∀ d ∈ dims, ∃ v, getSig t d = some v ∧ InDomain v w b) :
-    ∃ t', filterSeq t (.k kern) dims = .ok t' ∧
+    ∃ t', seqLoop dims (.arg kern) t = .ok t' ∧
       (∀ d ∈ dims, ∃ v, getSig t d = some v ∧ getSig t' d = some (meanSignal v w b)) ∧
       (∀ nm, nm ∉ dims → nm ≠ "temp" → getSig t' nm = getSig t nm) := by
-  have hfs : filterSeq t (.k kern) dims = seqLoop dims (.arg kern) t := by
-    unfold filterSeq
-    cases kern with
-    | obj _ _ _ _ _ => rfl
-    | list k =>
-      match k, hone with
-      | [], _ => rfl
-      | [a], hone => exact absurd rfl (hone a)
-      | _ :: _ :: _, _ => rfl
-  rw [hfs]
   have hden : ∀ v, InDomain v w b → ∀ i, i < v.length → wtot (window v w (w.length / 2) i) ≠ 0 :=
     fun v h i hi => ne_of_gt (h.norm_pos i hi)
   have hF : ∀ (w : List α) (b : Bool) (v : List (Option α)), (meanSignal v w b).length = v.length := by
@@ -337,6 +323,33 @@ theorem filterSeq_is_mean (t : Sigs α) (kern : KArg α) (w : List α) (b : Bool
       intro d hd
       obtain ⟨v, hv, hin⟩ := hall d hd
       exact ⟨v, hv, stable_obj v b f support S w hw (filterWindow_eq v _ b hin.odd (hden v hin) hin.long)⟩
+
+/-- **`filter_seq`** For a weight list (not of length one), a Kernel object or the Dirac kernel, on a
+track with at least one observation, and distinct dimensions none of which is the scratch feature
+`temp` or one of the virtual features `t`, `timestamp`, `idx`, every one of which is a signal of the
+track in the domain: `filter_seq` succeeds; each listed coordinate / feature is replaced by the
+signal of renormalised weighted means of its own former values (the same window for all of them —
+the in-place normalisation of the list at the first dimension does not change the result for the
+following ones); every other signal except `temp` is untouched. -/
+theorem filterSeq_is_mean (t : Sigs α) (kern : KArg α) (w : List α) (b : Bool) (dims : List String)
+    (hp : Prepared kern w b) (hone : ∀ a, kern ≠ .list [a])
+    (hnd : dims.Nodup) (htemp : "temp" ∉ dims)
+    (hres : ∀ d ∈ dims, d ≠ "t" ∧ d ≠ "timestamp" ∧ d ≠ "idx") (hsize : trackSize t ≠ 0)
+    (hall : ∀ d ∈ dims, ∃ v, getSig t d = some v ∧ InDomain v w b) :
+    ∃ t', filterSeq t (.k kern) dims = .ok t' ∧
+      (∀ d ∈ dims, ∃ v, getSig t d = some v ∧ getSig t' d = some (meanSignal v w b)) ∧
+      (∀ nm, nm ∉ dims → nm ≠ "temp" → getSig t' nm = getSig t nm) := by
+  have hfs : filterSeq t (.k kern) dims = seqLoop dims (.arg kern) t := by
+    unfold filterSeq
+    cases kern with
+    | obj _ _ _ _ _ => rfl
+    | list k =>
+      match k, hone with
+      | [], _ => rfl
+      | [a], hone => exact absurd rfl (hone a)
+      | _ :: _ :: _, _ => rfl
+  rw [hfs]
+  exact seqLoop_is_mean t kern w b dims hp hnd htemp hres hsize hall
 
 /-- **`filter_seq` with an integer kernel** `n` stands for the list `[1]*n`; `n = 1` (like any
 one-element list) returns the track unchanged. -/
@@ -562,6 +575,73 @@ theorem operate_refusals (t : Sigs α) (afIn afOut : String) (k : List α) (hodd
   · intro hr h0
     unfold operate resolve prepare
     simp [normalise_length, h1, hr, h0]
+
+/-! ## The argument forms of `Track.operate(Operator.FILTER, arg1, kernel[, arg3])` -/
+
+/-- the in-place list form on feature names runs the loop of `filter_seq` -/
+theorem operatePairs_inplace (dims : List String) (hxyz : ∀ d ∈ dims, ¬ (d = "x" ∨ d = "y" ∨ d = "z")) :
+    ∀ (kern : KSrc α) (t : Sigs α), (operatePairs (dims.zip dims) kern t).map (·.2) = seqLoop dims kern t := by
+  induction dims with
+  | nil => intro kern t; rw [List.zip_nil_left, operatePairs, seqLoop]; rfl
+  | cons af rest ih =>
+    intro kern t
+    have h := hxyz af List.mem_cons_self
+    have hc : ¬ ((af == "x") = true ∨ (af == "y") = true ∨ (af == "z") = true) := by simpa using h
+    rw [List.zip_cons_cons, operatePairs, seqLoop, if_neg hc]
+    rcases operate t af kern af with e | ⟨k', out, t'⟩
+    · rfl
+    · exact ih (fun d hd => hxyz d (List.mem_cons_of_mem _ hd)) k' t'
+
+/-- **Output name omitted** (`track.operate(Operator.FILTER, af, kernel)`): `arg3 = arg1`, the feature is
+filtered in place — it becomes its own mean signal, which is also returned; nothing else changes. The same for a
+list of names with `arg3` omitted or equal to `arg1`; lists of different lengths are refused. -/
+theorem operate_output_omitted (t : Sigs α) (afIn : String) (kern : KArg α) (w : List α) (b : Bool)
+    (hp : Prepared kern w b) (v : List (Option α)) (hres : reservedName afIn = false) (hsize : trackSize t ≠ 0)
+    (hv : getSig t afIn = some v) (hin : InDomain v w b) :
+    operateArgs t (.arg kern) (.one afIn none) = operateArgs t (.arg kern) (.one afIn (some afIn)) ∧
+    ∃ k' t', operateArgs t (.arg kern) (.one afIn none) = .ok (.arg (nextKernel kern k'), some (meanSignal v w b), t') ∧
+      getSig t' afIn = some (meanSignal v w b) ∧ ∀ nm, nm ≠ afIn → getSig t' nm = getSig t nm := by
+  refine ⟨rfl, ?_⟩
+  obtain ⟨k', t', h1, h2, h3⟩ := operate_is_mean t afIn afIn kern w b hp v hres hsize hv hin
+  refine ⟨k', t', ?_, h2, h3⟩
+  unfold operateArgs
+  simp only [Option.getD_none, h1]
+
+/-- **Lists of names** (`track.operate(Operator.FILTER, [a, c, …], kernel)`, `arg3` omitted or the same list):
+distinct features (not coordinates, whose names cannot be written as features; not the virtual `t`, `timestamp`,
+`idx`) of a non-empty track, each in the domain: the call succeeds, returns nothing, every listed feature becomes
+its own mean signal — one window for all of them although the weight list is normalised in place again at every
+turn — and no other signal changes. Lists of different lengths are refused before anything is computed. -/
+theorem operate_list_is_mean (t : Sigs α) (kern : KArg α) (w : List α) (b : Bool) (dims : List String)
+    (hp : Prepared kern w b) (hnd : dims.Nodup) (htemp : "temp" ∉ dims)
+    (hres : ∀ d ∈ dims, d ≠ "t" ∧ d ≠ "timestamp" ∧ d ≠ "idx")
+    (hxyz : ∀ d ∈ dims, ¬ (d = "x" ∨ d = "y" ∨ d = "z")) (hsize : trackSize t ≠ 0)
+    (hall : ∀ d ∈ dims, ∃ v, getSig t d = some v ∧ InDomain v w b) :
+    (∃ k' t', operateArgs t (.arg kern) (.many dims none) = .ok (k', none, t') ∧
+      operateArgs t (.arg kern) (.many dims (some dims)) = .ok (k', none, t') ∧
+      (∀ d ∈ dims, ∃ v, getSig t d = some v ∧ getSig t' d = some (meanSignal v w b)) ∧
+      (∀ nm, nm ∉ dims → nm ≠ "temp" → getSig t' nm = getSig t nm)) ∧
+    (∀ (ks : KSrc α) (outs : List String), dims.length ≠ outs.length →
+      operateArgs t ks (.many dims (some outs)) = .error .operands) := by
+  constructor
+  · obtain ⟨t', h1, h2, h3⟩ := seqLoop_is_mean t kern w b dims hp hnd htemp hres hsize hall
+    have hpairs := operatePairs_inplace dims hxyz (.arg kern) t
+    rw [h1] at hpairs
+    rcases hop : operatePairs (dims.zip dims) (.arg kern) t with e | ⟨k', t''⟩
+    · rw [hop] at hpairs; cases hpairs
+    · rw [hop] at hpairs
+      have e : t'' = t' := by
+        have : Except.ok (ε := Err) t'' = Except.ok t' := hpairs
+        cases this; rfl
+      subst e
+      refine ⟨k', t'', ?_, ?_, h2, h3⟩
+      · unfold operateArgs
+        simp [hop]
+      · unfold operateArgs
+        simp [hop]
+  · intro ks outs hne
+    unfold operateArgs
+    simp [hne]
 
 /-! ## The `dim` argument, module-level state, sessions, `Track.smooth` -/
 
